@@ -106,6 +106,22 @@ pub fn run_main(prop: &dyn Prop) {
     }
 
     // 2. execute
+    let is_child = std::env::var("VERIF_CHILD").is_ok();
+    if is_child {
+        if let Ok(mib) = std::env::var("VERIF_CHILD_MEM_MIB") {
+            if let Ok(mib) = mib.parse::<u64>() {
+                let lim = libc::rlimit { rlim_cur: mib << 20, rlim_max: mib << 20 };
+                unsafe {
+                    libc::setrlimit(libc::RLIMIT_AS, &lim);
+                }
+            }
+        }
+    }
+    if let (Some((secs, mib)), false) = (prop.isolate(), is_child) {
+        let (results, stats) = run_isolated(&args[0], &id, &cases, &out_dir, secs, mib);
+        finish(prop, &id, seed, tier, &out_dir, &cases, results, stats);
+        return;
+    }
     prop.setup(tier);
     let results: Mutex<Vec<Option<Vec<String>>>> = Mutex::new(vec![None; cases.len()]);
     let stats = Mutex::new(Stats::default());
@@ -141,8 +157,110 @@ pub fn run_main(prop: &dyn Prop) {
     });
     prop.teardown();
     let results = results.into_inner().unwrap();
-    let mut stats = stats.into_inner().unwrap();
+    let stats = stats.into_inner().unwrap();
+    finish(prop, &id, seed, tier, &out_dir, &cases, results, stats);
+}
 
+/// Runs the cases in child processes of this same binary (`--replay <chunk file>`), 16 chunks at a time;
+/// a chunk whose child fails (non-zero exit, signal, timeout) is split until the failing case is alone.
+fn run_isolated(exe: &str, id: &str, cases: &[Case], out_dir: &str, secs: u64, mib: u64) -> (Vec<Option<Vec<String>>>, Stats) {
+    use std::sync::atomic::{AtomicUsize, Ordering};
+    let results: Mutex<Vec<Option<Vec<String>>>> = Mutex::new(vec![None; cases.len()]);
+    let stats = Mutex::new(Stats::default());
+    let chunk = 48usize;
+    let mut queue: Vec<(usize, usize)> = (0..cases.len()).step_by(chunk).map(|a| (a, (a + chunk).min(cases.len()))).collect();
+    queue.reverse();
+    let queue = Mutex::new(queue);
+    let counter = AtomicUsize::new(0);
+    std::thread::scope(|s| {
+        for _ in 0..16 {
+            s.spawn(|| loop {
+                let Some((a, b)) = queue.lock().unwrap().pop() else { break };
+                let k = counter.fetch_add(1, Ordering::SeqCst);
+                let dir = format!("{out_dir}/iso/{k}");
+                std::fs::create_dir_all(&dir).ok();
+                let blocks: Vec<(String, Vec<String>)> = cases[a..b].iter().map(|c| (c.name.clone(), c.ops.clone())).collect();
+                let file = format!("{dir}/in.ops");
+                std::fs::write(&file, render_blocks(&blocks)).unwrap();
+                let mut child = std::process::Command::new(exe)
+                    .arg(id)
+                    .arg("--replay")
+                    .arg(&file)
+                    .arg("--out")
+                    .arg(&dir)
+                    .env("VERIF_CHILD", "1")
+                    .env("VERIF_CHILD_MEM_MIB", mib.to_string())
+                    .stdout(std::process::Stdio::null())
+                    .stderr(std::process::Stdio::null())
+                    .spawn()
+                    .expect("spawn child");
+                let start = std::time::Instant::now();
+                let how = loop {
+                    match child.try_wait() {
+                        Ok(Some(st)) if st.success() => break None,
+                        Ok(Some(st)) => {
+                            use std::os::unix::process::ExitStatusExt;
+                            break Some(match st.signal() {
+                                Some(sig) => format!("signal{sig}"),
+                                None => format!("exit{}", st.code().unwrap_or(-1)),
+                            });
+                        }
+                        Ok(None) => {
+                            if start.elapsed().as_secs() > secs * (((b - a) as u64 + 7) / 8).max(1) {
+                                let _ = child.kill();
+                                let _ = child.wait();
+                                break Some("timeout".to_string());
+                            }
+                            std::thread::sleep(std::time::Duration::from_millis(20));
+                        }
+                        Err(_) => break Some("wait-error".to_string()),
+                    }
+                };
+                match how {
+                    None => {
+                        let out = std::fs::read_to_string(format!("{dir}/impl.out")).unwrap_or_default();
+                        let blocks = parse_blocks(&out);
+                        let mut r = results.lock().unwrap();
+                        for (i, (_, lines)) in blocks.into_iter().enumerate() {
+                            if a + i < b {
+                                r[a + i] = Some(lines);
+                            }
+                        }
+                        if let Ok(text) = std::fs::read_to_string(format!("{dir}/stats.json")) {
+                            if let Ok(v) = serde_json::from_str::<serde_json::Value>(&text) {
+                                if let Some(m) = v["counters"].as_object() {
+                                    let mut st = stats.lock().unwrap();
+                                    for (k, val) in m {
+                                        if k != "cases" && k != "distinct_nontrivial" && k != "total_op_lines" {
+                                            st.add(k, val.as_u64().unwrap_or(0));
+                                        }
+                                    }
+                                }
+                            }
+                        }
+                    }
+                    Some(how) => {
+                        if b - a == 1 {
+                            results.lock().unwrap()[a] = Some(vec![format!("crash:{how}")]);
+                            stats.lock().unwrap().bump("isolated_crashes");
+                        } else {
+                            let mid = (a + b) / 2;
+                            let mut q = queue.lock().unwrap();
+                            q.push((mid, b));
+                            q.push((a, mid));
+                        }
+                    }
+                }
+                let _ = std::fs::remove_dir_all(&dir);
+            });
+        }
+    });
+    let _ = std::fs::remove_dir_all(format!("{out_dir}/iso"));
+    (results.into_inner().unwrap(), stats.into_inner().unwrap())
+}
+
+#[allow(clippy::too_many_arguments)]
+fn finish(prop: &dyn Prop, id: &str, seed: u64, tier: Tier, out_dir: &str, cases: &[Case], results: Vec<Option<Vec<String>>>, mut stats: Stats) {
     // 3. write files
     let ops_blocks: Vec<(String, Vec<String>)> =
         cases.iter().map(|c| (c.name.clone(), c.ops.clone())).collect();
